@@ -12,7 +12,8 @@
 //	    the same call written as SCRIPT TEXT, parsed and run by the interpreter; F is the receiver /
 //	    argument form: var ($a->m(..)), prop ($o->a->m(..)), elem ($w[0]->m(..)), lit (([..])->m(..)),
 //	    spread ($a->m(...[..])), named ($a->m(args.., name: v, ..): "named" lists {"n":name,"v":E} in the order written;
-//	    the answer carries "pn": the parameter names and kinds of the real method object)
+//	    the answer carries "pn": the parameter names and kinds of the real method object);
+//	    chain ($a->m(..)->m2(args2..): "m2","args2","cb2" give the second call; the receiver $a is observed)
 //
 // E = null | true | false | {"i":"5"} | {"s":"x"} | [E...] | {"f":"<float64 bits>"} | {"o":"<n>"} (an object, one per n)
 // every answer carries "atoms": the AsString text of each float / object that occurs in the case
@@ -53,6 +54,9 @@ type Case struct {
 	Args  []json.RawMessage `json:"args"`
 	Cb    string            `json:"cb"`
 	Form  string            `json:"form"`
+	M2    string            `json:"m2"`
+	Args2 []json.RawMessage `json:"args2"`
+	Cb2   string            `json:"cb2"`
 	Named []NamedArg        `json:"named"`
 }
 
@@ -246,7 +250,7 @@ func runScript(c Case) (o Obs) {
 	}
 	var pre, recv string
 	switch c.Form {
-	case "var", "spread", "named":
+	case "var", "spread", "named", "chain":
 		pre, recv = "$a = "+recvLit+";", "$a"
 	case "prop":
 		pre, recv = "$o = new C15H(); $o->a = "+recvLit+";", "$o->a"
@@ -273,6 +277,25 @@ func runScript(c Case) (o Obs) {
 		list = append(list, args...)
 	}
 	call := recv + "->" + c.M + "(" + strings.Join(list, ", ") + ")"
+	if c.Form == "chain" {
+		// $a->m1(..)->m2(..): the second method is applied to the unassigned result of the first
+		var list2 []string
+		if c.Cb2 != "" {
+			src, ok := cbSrc[c.Cb2]
+			if !ok {
+				return Obs{Out: "panic", Msg: "no callback " + c.Cb2}
+			}
+			list2 = append(list2, src)
+		}
+		for _, a := range c.Args2 {
+			t, ok := lit(a)
+			if !ok {
+				return Obs{Out: "skip", Msg: "argument has no literal"}
+			}
+			list2 = append(list2, t)
+		}
+		call += "->" + c.M2 + "(" + strings.Join(list2, ", ") + ")"
+	}
 	var src string
 	if c.Form == "lit" {
 		// a literal receiver: no variable holds it, only the result is observed (after = the literal)
